@@ -8,13 +8,15 @@ from ._layouts import translate  # noqa: F401  (T1)
 
 MODULES = ["Iodata.Props.C03"]
 RULE = (
-    "per format, a random molecular model (sizes cycling through every field-width boundary: 9/10, 99/100, 999/1000 atoms "
-    "and bonds, thorough also 9999/10000, 99999/100000 where a 5-column serial exists; all elements; magnitudes from the "
-    "classes {0, -0, last digit, smallest/largest value with k integer digits for every k the column holds}) is rendered by "
-    "the Lean spec renderer of the *published* layout (free-format blank runs are part of the random input; fixed-column "
-    "formats are rendered from hand-written column tables) and by an independent Python writer (spec-writers-agree), then "
-    "read by iodata.api.load_one: spec-load:<fmt> requires the re-quantised result to equal the model; load-spec:<fmt> "
-    "compares it with the Lean reader model. non-trivial = distinct file"
+    "per format, a random molecular model (sizes cycling through every field-width boundary: 9/10, 99/100, 999/1000, 9999/10000 "
+    "atoms and bonds, thorough also 99999/100000 where a 5-column serial exists; all elements; magnitudes from the classes "
+    "{0, -0, last digit, smallest/largest value with k integer digits for every k the column holds}) is rendered by the Lean "
+    "spec renderer of the *published* layout (free-format blank runs are part of the random input; fixed-column formats are "
+    "rendered from hand-written column tables; FCHK with Gaussian's widths E22.15 / 6I12 / 5E16.8 and array lengths around "
+    "every multiple of 5 and 6; Cube as I5,4F12.6 / 6E13.5 with rows of length 1..25) and by an independent Python writer "
+    "(spec-writers-agree), then read by iodata.api.load_one: spec-load:<fmt> requires the re-quantised result to equal the "
+    "model; load-spec:<fmt> compares it with the Lean reader model. spec-py:<fmt> (GRO, MOL2, extended XYZ with Lattice / "
+    "Properties / energy): Python spec writer only, result compared with the model. non-trivial = distinct file"
 )
 TRUSTED = [
     "harness/vh/props/_layouts.py: ast extraction of line slices / words[i] uses",
@@ -36,11 +38,11 @@ def correspond(ctx):
     from . import _fchk
 
     for k in FORMATS:
-        K.c03_flow(ctx, ADAPTERS[k], ctx.n(40, 400))
-    _fchk.c03_flow(ctx, ctx.n(60, 500))
+        K.c03_flow(ctx, ADAPTERS[k], ctx.n(600, 2500))
+    _fchk.c03_flow(ctx, ctx.n(800, 3000))
     from ._cube import CUBE
 
-    K.c03_flow(ctx, CUBE, ctx.n(50, 400))
+    K.c03_flow(ctx, CUBE, ctx.n(800, 3000))
     _fchk.corr_shuffles(ctx)
 
 
@@ -48,7 +50,7 @@ def search(ctx):
     from ._adapters2 import SPEC_ONLY
 
     for k, ad in SPEC_ONLY.items():
-        K.c03_spec_only(ctx, ad, ctx.n(40, 400) * (3 if ctx.escalated else 1))
+        K.c03_spec_only(ctx, ad, ctx.n(800, 3000) * (3 if ctx.escalated else 1))
     # the direct evaluation (spec-load:<fmt>) is part of c03_flow; with a broken obligation run a second, larger batch
     if ctx.escalated:
         for k in FORMATS:
